@@ -58,6 +58,9 @@ func (c *c14) Cases(tier string, seed int64) []core.Case {
 			}
 		}
 	}
+	for _, f := range []string{"par2", "par1"} {
+		cs = append(cs, core.MkCase(f+"-dangling-link", c14Params{Seed: sd, Fmt: f, Mode: "dangling"}))
+	}
 	n := map[string]int{"quick": 16, "thorough": 1000}[tier]
 	for i := 0; i < n; i++ {
 		f := []string{"par2", "par1"}[i%2]
@@ -324,10 +327,139 @@ func (w *c14World) step(r *core.R, op, desc string) {
 	}
 }
 
+// runDangling: a protected file is a symbolic link into a directory that is
+// gone, so it is missing and cannot be written. Repair must fail (or really
+// succeed); once the link is removed a further Repair - through the one-shot
+// entry point and through the very Decoder object that saw the failure - must
+// bring the original back.
+func (c *c14) runDangling(r *core.R, p c14Params) {
+	w, err := newC14World(p.Fmt, p.Seed, 3)
+	if w != nil {
+		defer w.close()
+	}
+	if err != nil {
+		r.Violate("setup-create-failed", "%v", err)
+		return
+	}
+	orig := []string{"original", "original", "original"}
+	intact := func() []string {
+		var bad []string
+		for i, pth := range w.paths {
+			b, err := os.ReadFile(pth)
+			if err != nil || string(b) != string(w.files[i].Data) {
+				bad = append(bad, w.files[i].Name)
+			}
+		}
+		return bad
+	}
+	for i := range w.paths {
+		if len(w.files[i].Data) == 0 && p.Fmt == "par1" {
+			continue
+		}
+		if p.Fmt == "par2" && (len(w.files[i].Data)+w.slice-1)/w.slice > w.w18.blocks {
+			continue // losing this file alone exceeds the recovery capacity
+		}
+		for _, how := range []string{"one-shot", "one-shot-dc", "same-decoder"} {
+			w.materialize(orig, 3)
+			os.Remove(w.paths[i])
+			if os.Symlink(filepath.Join(w.root, "gone", "away", "target"), w.paths[i]) != nil {
+				r.Inconclusive("symlink failed")
+				return
+			}
+			desc := fmt.Sprintf("%s: %s is a dangling symbolic link into a deleted directory (%s)", p.Fmt, w.files[i].Name, how)
+			core.Note("C14 %s", desc)
+			var first, second error
+			var pi *core.PanicInfo
+			switch {
+			case how != "same-decoder":
+				op := map[string]string{"one-shot": "repair", "one-shot-dc": "repair-dc"}[how]
+				res := w.exec(op)
+				first, pi = res.err, res.panicked
+				if pi == nil && first == nil {
+					if bad := intact(); len(bad) > 0 {
+						r.Violate("successful-repair-left-damage", "%s: Repair returned nil but %v are not the originals", desc, bad)
+					}
+				}
+				os.Remove(w.paths[i]) // the link goes away; the file is now simply missing
+				res = w.exec(op)
+				second = res.err
+				if pi == nil {
+					pi = res.panicked
+				}
+			case p.Fmt == "par2":
+				pi = core.Protect(func() {
+					d, err := par2.NewDecoder(par2.DoNothingDecoderDelegate{}, w.idx, 2)
+					if err != nil {
+						first, second = err, err
+						return
+					}
+					if err := d.LoadFileData(); err != nil {
+						first, second = err, err
+						return
+					}
+					if err := d.LoadParityData(); err != nil {
+						first, second = err, err
+						return
+					}
+					_, first = d.Repair(false)
+					if first == nil {
+						if bad := intact(); len(bad) > 0 {
+							r.Violate("successful-repair-left-damage", "%s: Decoder.Repair returned nil but %v are not the originals", desc, bad)
+						}
+					}
+					os.Remove(w.paths[i])
+					_, second = d.Repair(false)
+				})
+			default:
+				pi = core.Protect(func() {
+					d, err := par1.NewDecoder(par1.DoNothingDecoderDelegate{}, w.idx)
+					if err != nil {
+						first, second = err, err
+						return
+					}
+					if err := d.LoadFileData(); err != nil {
+						first, second = err, err
+						return
+					}
+					if err := d.LoadParityData(); err != nil {
+						first, second = err, err
+						return
+					}
+					_, first = d.Repair(false)
+					if first == nil {
+						if bad := intact(); len(bad) > 0 {
+							r.Violate("successful-repair-left-damage", "%s: Decoder.Repair returned nil but %v are not the originals", desc, bad)
+						}
+					}
+					os.Remove(w.paths[i])
+					_, second = d.Repair(false)
+				})
+			}
+			if pi != nil {
+				r.Violate(core.CrashSig(p.Fmt+".Repair", pi.Frame, pi.Msg), "%s: panic %s", desc, pi.Msg)
+				continue
+			}
+			r.Count("dangling_link_histories", 1)
+			r.SetAdd("first_attempt_outcomes", fmt.Sprint(first))
+			if second != nil {
+				r.Violate("repair-does-not-converge", "%s: first attempt: %v; after the link was removed (one missing file, all recovery files present) the next attempt fails: %v", desc, first, second)
+			} else if bad := intact(); len(bad) > 0 {
+				r.Violate("successful-repair-left-damage", "%s: first attempt: %v; the next attempt returned nil but %v are not the originals", desc, first, bad)
+			}
+			r.Key("dangling|%s|%d|%s", p.Fmt, i, how)
+		}
+	}
+	r.Sample(map[string]interface{}{"mode": "dangling", "format": p.Fmt, "files": len(w.paths)})
+}
+
 func (c *c14) Run(cs core.Case) core.Result {
 	var p c14Params
 	core.Decode(cs, &p)
 	r := core.NewR(cs)
+	if p.Mode == "dangling" {
+		c.runDangling(r, p)
+		return r.Done()
+	}
 	if p.Mode == "graph" {
 		c18Content = p.Content
 		w, err := newC14World(p.Fmt, p.Seed, 3)
